@@ -293,7 +293,7 @@ func unitSinks(fn *ssa.Function) []unitSink {
 }
 
 func C15(p *an.Prog, r *an.Report) {
-	r.Explanation = "For every library function that takes or yields a time.Time/data.Date (and every predicate calling time.Now): (A1) each integer +,-,*,<< and each integer conversion is shown unable to leave its type's range given the type-derived ranges of its operands (wire uint16/uint32 fields, constants, call results), in arbitrary precision — so second/millisecond arithmetic cannot wrap for any field value; same-width signed/unsigned reinterpretations of 8-byte millisecond dates are admitted under the property's own domain assumption (< 2^63). (A2) narrowing conversions must be reached only with fitting values (interval partitioning), and NewLease2 rejects exactly times outside [0, 2^32-1] seconds. (A5) a unit analysis (s/ms/µs/ns as powers of ten) checks every time.Unix/UnixMilli/Add/PutUint32/PutUint64 argument carries the unit the sink expects. (A3) each IsExpired compares time.Now with the receiver's own expiry accessor in the right direction. (A4) Newest/OldestExpiration update their accumulator only with Date() of the receiver's leases under After/Before respectively. Does not decide the day-past/day-future outcomes as values."
+	r.Explanation = "For every library function that takes or yields a time.Time/data.Date (and every predicate calling time.Now): (A1) each integer +,-,*,<< and each integer conversion is shown unable to leave its type's range given the type-derived ranges of its operands (wire uint16/uint32 fields, constants, call results), in arbitrary precision — so second/millisecond arithmetic cannot wrap for any field value; same-width signed/unsigned reinterpretations of 8-byte millisecond dates are admitted under the property's own domain assumption (< 2^63). (A2) narrowing conversions must be reached only with fitting values (interval partitioning), and NewLease2 rejects exactly times outside [0, 2^32-1] seconds. (A5) a unit analysis (s/ms/µs/ns as powers of ten) checks every time.Unix/UnixMilli/Add/PutUint32/PutUint64 argument carries the unit the sink expects. (A3) each IsExpired compares time.Now with the receiver's own expiry accessor in the right direction. (A4) Newest/OldestExpiration update their accumulator only with Date() of the receiver's leases under After/Before respectively. Does not decide the day-past/day-future outcomes as values. (A7) millisecond/second counts are not obtained by scaling UnixNano() (undefined outside 1678..2262) or Unix() (drops the sub-second part)."
 	r.Rule = "one obligation per arithmetic instruction / conversion / sink / predicate in the time functions; non-trivial = at least one operand is not a constant"
 	r.Trusted = []string{"package time", "go/ssa"}
 	r.Assumptions = []string{"8-byte millisecond dates are below 2^63 (property text)", "int is 64 bits"}
